@@ -7,6 +7,8 @@ CONSTANTS
   Excl = FALSE
   WinLock = TRUE
   Fault = "none"
+  StrictBackend = TRUE
+  DrainAfterDecode = TRUE
   ReadPolicy = "any"
   Modes <- ModesCt
   Levels <- LevelsOne
